@@ -158,6 +158,7 @@ def main():
         exe = os.path.join(BUILD, binary)
         begin = 0
         stalls = 0
+        ext_kills = 0
         outs, fatals, harness = [], [], []
         for attempt in range(40):
             out = os.path.join(workdir, f"b{bi}w{w}r{attempt}")
@@ -167,6 +168,7 @@ def main():
                 # watchdog: a worker whose current index does not change for STALL_S seconds is stuck inside one
                 # run (a loop in the library that makes no progress); it is killed and the index reported like a crash
                 p = subprocess.Popen(cmd, stdout=errf, stderr=errf)
+                we_killed = False
                 last_idx, last_t = None, time.time()
                 while True:
                     try:
@@ -185,6 +187,7 @@ def main():
                     elif time.time() - last_t > STALL_S:
                         p.kill()
                         rc = p.wait()
+                        we_killed = True
                         errf.write(f"\ncheck.py: killed after {STALL_S} s without progress\n")
                         stalls += 1
                         break
@@ -210,6 +213,11 @@ def main():
             if idx is None:
                 harness.append(f"worker {os.path.basename(out)} exited with status {rc} without a current index; see {out}.err")
                 break
+            if rc == -9 and not we_killed and ext_kills < 3:
+                # killed from outside (e.g. the kernel's out-of-memory killer): not a verdict about the run; go on from the same index
+                ext_kills += 1
+                begin = idx
+                continue
             fatals.append((idx, "asan" if marker == 2 else "crash", rc, exe, extra, out))  # marker 3 = SIGABRT (failed assert)
             begin = idx + 1
             if stalls >= 2:
